@@ -43,6 +43,11 @@ def main():
     try:
         from translate import regen
         regen.regenerate_all()
+        for gname, why in regen.broken_for(ck.pid):
+            # the source no longer fits the translated subset: the regenerated part of the model is
+            # no longer tied to the code by translation -- a broken obligation (DESIGN 2.4); the
+            # correspondence run and the post-failure search still look for a concrete failing input
+            ck.proof_failures.append(("translator %s failed closed on the current source" % gname, why))
         rc = mod.run(ck)
     except Exception:
         # a crash of the machinery is not a verdict about the code: fail loudly
